@@ -4,6 +4,7 @@ import (
 	"fmt"
 	"go/ast"
 	"go/types"
+	"strings"
 
 	"golang.org/x/tools/go/packages"
 	"golang.org/x/tools/go/ssa"
@@ -196,6 +197,36 @@ func c15Literals(c *Ctx) {
 	c.Floor("literal.diag", n, 260, "271 Diagnostic literals counted in non-test function bodies on the pinned tree")
 }
 
-func c15Progress(c *Ctx)    {}
-func c15Unmarked(c *Ctx)    {}
+func c15Progress(c *Ctx) {}
+
+// R3: no marked-value panic (E-unmarked).
+func c15Unmarked(c *Ctx) {
+	c.Rule("R3 unmarked: the receiver of every call of a cty.Value method that panics on marked values (" + strings.Join(frozenMarkedPanics, ", ") + ") is provably top-level unmarked: result 0 of Unmark*, a fresh cty constructor/constant, a ValueRange bound, a primitive operation or primitive conversion of unmarked values, a value under the false edge of IsMarked(), a phi/local/captured local of such, or a parameter of an unexported function all of whose call sites pass such")
+	e, err := newUnmarkedEngine(c.P)
+	if err != nil {
+		c.CheckerFail("unmarked", err.Error())
+		return
+	}
+	c.Trust("go-cty v1.16.3: the set of cty.Value methods that panic on marked receivers is re-derived from its SSA on every run and equals the frozen list")
+	scope := []string{"hcl", "hclsyntax", "json", "hcldec", "ext/dynblock"}
+	fns := c.P.pkgFuncs(scope...)
+	sites := e.Sites(fns)
+	perFn := map[string]int{}
+	for _, s := range sites {
+		name := FuncName(s.fn)
+		c.Fn(name)
+		c.Sites++
+		perFn[name+"."+s.method]++
+		key := fmt.Sprintf("%s:call[%s]", name, s.method)
+		if s.ok {
+			c.OK("unmarked", key, s.pos, s.why)
+		} else {
+			c.Fail("unmarked", key, s.pos, fmt.Sprintf("%s() on a value that is not provably unmarked (%s): panics with \"value is marked\" when the value carries a mark", s.method, s.why))
+		}
+	}
+	for f, why := range e.usedFieldRules {
+		c.Assumption("unmarked: named exception " + f + ": " + why)
+	}
+	c.Floor("unmarked sites", len(sites), 45, "≈ 60 call sites of marked-panicking cty methods in hcl, hclsyntax, json, hcldec, dynblock")
+}
 func c15Determinism(c *Ctx) {}
